@@ -171,7 +171,7 @@ type runner struct {
 	infra    []string
 	points   int
 	features map[string]bool
-	vetEvery int
+	buildEvery int
 }
 
 // runChain replays one behaviour of the specification: Generate on the row of
@@ -189,7 +189,7 @@ func (r *runner) runChain(ch *chain) {
 		if err := p.Write(); err != nil {
 			vlib.Infra("write project: %v", err)
 		}
-		out := p.Generate(r.vetEvery > 0 && (ch.Start+st.Step)%r.vetEvery == 0)
+		out := p.Generate(r.buildEvery > 0 && (ch.Start+st.Step)%r.buildEvery == 0)
 		r.mu.Lock()
 		r.points++
 		for _, o := range occ {
@@ -200,7 +200,7 @@ func (r *runner) runChain(ch *chain) {
 		r.c.Class(st.Row.ClassKey())
 		if ch.Start <= 3 && st.Step == 1 {
 			r.c.Sample(map[string]any{"start": ch.Start, "non_default_factors": st.Row.NonDefault(), "prescribed": map[string]bool{"ok": st.Ok, "compiles": st.Compiles},
-				"observed": map[string]any{"gen": out.Gen, "build": out.Build, "vet": out.Vet, "vet_run": out.VetRun}, "wall_s": out.WallS})
+				"observed": map[string]any{"gen": out.Gen, "typechecks": out.Build, "vet": out.Vet, "go_build_run": out.BuildRun}, "wall_s": out.WallS})
 		}
 		if out.Infra() {
 			r.mu.Lock()
@@ -284,7 +284,7 @@ func (r *runner) runProbe(p probe) {
 }
 
 // fresh runs one row in a scratch directory of its own and reports the outcome.
-func fresh(tag string, row projgen.C17Row, seed int64, nfiles int, vet bool, quirks projgen.C17Quirks) projgen.C17Outcome {
+func fresh(tag string, row projgen.C17Row, seed int64, nfiles int, build bool, quirks projgen.C17Quirks) projgen.C17Outcome {
 	name := "c17_dd_" + tag
 	root := removeGen(name)
 	p := projgen.C17Render(root, projgen.ImportBase(name), row, seed, nfiles, quirks)
@@ -294,7 +294,7 @@ func fresh(tag string, row projgen.C17Row, seed int64, nfiles int, vet bool, qui
 	if err := p.Write(); err != nil {
 		return projgen.C17Outcome{Kind: "infra", Detail: err.Error()}
 	}
-	out := p.Generate(vet)
+	out := p.Generate(build)
 	if os.Getenv("C17_KEEP") == "" {
 		_ = os.RemoveAll(root)
 	}
@@ -304,14 +304,14 @@ func fresh(tag string, row projgen.C17Row, seed int64, nfiles int, vet bool, qui
 // minimise finds a minimal set of non-default factors under which the row still
 // fails with the same kind of failure (delta debugging: factors are switched
 // back to their defaults).  budget bounds the number of generator runs.
-func minimise(id string, row projgen.C17Row, seed int64, nfiles int, kind string, budget int) ([]string, projgen.C17Row, bool) {
+func minimise(id string, row projgen.C17Row, seed int64, nfiles int, kind string, buildRun bool, budget int) ([]string, projgen.C17Row, bool) {
 	runs := 0
 	var mu sync.Mutex
 	fails := func(tag string, r projgen.C17Row) bool {
 		mu.Lock()
 		runs++
 		mu.Unlock()
-		o := fresh(id+"_"+tag, r, seed, nfiles, kind == "vet", nil)
+		o := fresh(id+"_"+tag, r, seed, nfiles, buildRun, nil)
 		return !o.Infra() && o.Kind == kind
 	}
 	with := func(r projgen.C17Row, off []string) projgen.C17Row {
@@ -416,7 +416,7 @@ func (r *runner) report(fs []*failure) {
 		id := fmt.Sprintf("%d", gi)
 		if f.step.Step > 1 && f.quirk == "" {
 			// does the row fail on a clean directory as well?
-			o := fresh(id+"_f", f.step.Row, seed, f.ch.NFiles, f.out.Kind == "vet", nil)
+			o := fresh(id+"_f", f.step.Row, seed, f.ch.NFiles, f.out.BuildRun, nil)
 			if o.OK() {
 				evolutionOnly = true
 			}
@@ -429,7 +429,7 @@ func (r *runner) report(fs []*failure) {
 			label = "evolution(" + f.step.Row.Label(changed(f.ch.Steps[f.step.Step-2].Row, f.step.Row)) + ")"
 			scen["note"] = "the row generates and compiles in a clean directory; it fails only on top of the previous step's output"
 		case gi < maxGroups:
-			min, mrow, complete := minimise(id, f.step.Row, seed, f.ch.NFiles, f.out.Kind, 60)
+			min, mrow, complete := minimise(id, f.step.Row, seed, f.ch.NFiles, f.out.Kind, f.out.BuildRun, 60)
 			label = mrow.Label(min)
 			if label == "" {
 				label = "defaults"
@@ -444,7 +444,13 @@ func (r *runner) report(fs []*failure) {
 			scen["minimal_yaml2"] = mp.YAML2
 		}
 		key := fmt.Sprintf("%s/%s/%s", f.out.Kind, label, f.out.Class)
-		detail := fmt.Sprintf("prescribed outcome ok=true compiles=true; observed gen=%s (pass %d) build=%v vet=%v [%s]\nrow (start %d, step %d) non-default factors: %s\nminimal failing factor set: %s\n%d further point(s) fail the same way\n%s",
+		if f.quirk != "" {
+			// the probe row passes without the trigger (it is one of the enumerated rows), so the
+			// failure is attributed to the trigger; the message text is left out of the key
+			// (it differs between the generator's validation pass, go vet and go build)
+			key = fmt.Sprintf("quirk:%s/%s", f.quirk, f.out.Kind)
+		}
+		detail := fmt.Sprintf("prescribed outcome ok=true compiles=true; observed gen=%s (pass %d) typechecks=%v vet=%v [%s]\nrow (start %d, step %d) non-default factors: %s\nminimal failing factor set: %s\n%d further point(s) fail the same way\n%s",
 			f.out.Gen, f.out.Pass, f.out.Build, f.out.Vet, f.out.Kind, f.ch.Start, f.step.Step, strings.Join(f.step.Row.NonDefault(), " "), label, len(g)-1, f.out.Detail)
 		results[gi] = res{key, detail, scen}
 	})
@@ -484,7 +490,7 @@ func replay(c *vlib.Check, path string) {
 			vlib.Infra("replay: %v", err)
 		}
 	}
-	r := &runner{c: c, features: map[string]bool{}, vetEvery: 1}
+	r := &runner{c: c, features: map[string]bool{}, buildEvery: 1}
 	r.runChain(ch)
 	if len(r.infra) > 0 {
 		vlib.Infra("replay: %s", strings.Join(r.infra, "; "))
@@ -537,7 +543,7 @@ func main() {
 		return
 	}
 	chains := runTLC(c)
-	r := &runner{c: c, features: map[string]bool{}, vetEvery: 1}
+	r := &runner{c: c, features: map[string]bool{}, buildEvery: 3}
 	t0 := time.Now()
 	probes := quirkProbes(chains)
 	projgen.Parallel(len(chains)+len(probes), 8, func(i int) {
